@@ -398,6 +398,50 @@ pub fn execute_op(
     out
 }
 
+/// Reference result for ONE subscription event: the selection below the root
+/// field(s) with response key `key` of subscription operation `op`, executed
+/// on the event payload `payload` (§6.2.3.2 ExecuteSubscriptionEvent for a
+/// single root response key). `data` is `{key: value}`, or null when an error
+/// propagated through a non-null root field. Error paths start with `key`.
+pub fn execute_event(
+    ts: &TypeSystem,
+    doc: &Doc,
+    op: &Op,
+    raw_vars: &J,
+    world: &World,
+    key: &str,
+    payload: PlanVal,
+) -> RefResult {
+    let vars = match coerce::coerce_variables(ts, op, raw_vars) {
+        Ok(v) => v,
+        Err(e) => return RefResult { request_error: Some(e), ..Default::default() },
+    };
+    let Some(root_ty) = ts.subscription.clone() else {
+        return RefResult { request_error: Some("schema has no subscription type".into()), ..Default::default() };
+    };
+    let grouped = collect_fields(ts, doc, &vars, &root_ty, &[op.sel.as_slice()]);
+    let Some((_, fields)) = grouped.into_iter().find(|(k, _)| k == key) else {
+        return RefResult { request_error: Some(format!("no root field with response key {key}")), ..Default::default() };
+    };
+    let Some(fd) = ts.field(&root_ty, &fields[0].name).cloned() else {
+        return RefResult { request_error: Some(format!("unknown subscription field {}", fields[0].name)), ..Default::default() };
+    };
+    let mut ex = Exec { ts, doc, vars: vars.clone(), world, out: RefResult::default() };
+    let mut path = vec![Seg::Key(key.to_string())];
+    let r = ex.complete(&fd.ty, payload, &fields, &mut path);
+    let mut out = ex.out;
+    out.vars = vars;
+    out.data = match r {
+        Ok(v) => {
+            let mut m = Map::new();
+            m.insert(key.to_string(), v);
+            J::Object(m)
+        }
+        Err(_) => J::Null,
+    };
+    out
+}
+
 /// Is reference error `e` allowed to be missing from the observed errors,
 /// given the set of reference errors that *were* observed? It is when some
 /// other observed error nulled a position that contains `e`'s path (the spec
